@@ -14,6 +14,7 @@ import traceback
 import z3
 
 from .values import *
+from .chars import TChars, TDigits, VChars
 from .ops import lift, unlift, FloatInexact, mk_bool, conj_terms
 from .engine import Interp, Obligation
 from .sources import SOURCES
@@ -212,6 +213,10 @@ def _install_spec_models(interp):
         from . import regex
         s, pat = args
         p = re.compile(unlift(pat))
+        if isinstance(s, VChars):
+            r = regex.chars_in_re(p, s)
+            yield st, (VBool(r) if isinstance(r, bool) else mk_bool(r))
+            return
         if s.concrete:
             yield st, VBool(p.fullmatch(s.v) is not None)
             return
@@ -249,8 +254,9 @@ def make_interp(p):
     it.unroll_limit = p.unroll_limit
     _install_spec_models(it)
     _install_rec_specs(it)
-    from . import regex
+    from . import regex, stdmodels
     regex.install(it)
+    stdmodels.install(it)
     return it
 
 
@@ -364,7 +370,12 @@ Interp.eval_pred = _eval_pred
 
 def leaf_terms(v, st, out):
     """collect symbolic leaf terms of an input value (for get-value)"""
-    if isinstance(v, (VInt, VBool, VStr, VBytes)):
+    from .chars import VChars
+    if isinstance(v, VChars):
+        for c in v.codes:
+            if not isinstance(c, int):
+                out.append(c)
+    elif isinstance(v, (VInt, VBool, VStr, VBytes)):
         if not v.concrete:
             out.append(v.v)
     elif isinstance(v, VTuple):
@@ -390,6 +401,10 @@ def rebuild(v, st, values, elem=None):
     """input V + dict term-sexpr -> python value"""
     def val(t):
         return values[t.sexpr()]
+    from .chars import VChars
+    if isinstance(v, VChars):
+        r = ''.join(chr(c if isinstance(c, int) else val(c)) for c in v.codes)
+        return r.encode('latin-1') if v.is_bytes else r
     if isinstance(v, VInt):
         return v.v if v.concrete else val(v.v)
     if isinstance(v, VBool):
